@@ -185,7 +185,8 @@ def zero_init(facts, res):
             ptypes = " ".join(p["t"] for p in m["params"])
             if "unsigned char *" in ptypes or "std::pair<unsigned char" in ptypes:
                 continue      # raw-memory view constructors do not allocate
-            txt = facts.ntext(tbf.body(m))
+            m = tbf.expand_member_helpers(facts, m)       # a constructor that delegates to a (re)initialisation method is judged through it
+            txt = "".join(facts.ntext(st) + ";" for st in kids(tbf.body(m))) if m.get("expanded") else facts.ntext(tbf.body(m))
             if "resetBlocksFromSizes" not in txt:
                 if "(*this)=" + cls in txt:
                     res.instance(R + ".group-ctor", "%s ctor@%d" % (cls, m["l"][1]), facts.loc(m), "delegates to another constructor by move-assignment")
@@ -207,7 +208,7 @@ def copy_provenance(facts, res):
     property at the same p"""
     R = "C06.5.copy-provenance"
     import stages
-    pt = [m for m in facts.methods_of("TbfParticlesContainer") if m["kind"] == "CXXConstructor" and len(m["params"]) == 3 and tbf.body(m) is not None and "GroupInfoClass" in m["params"][0]["t"]]
+    pt = [tbf.expand_member_helpers(facts, m) for m in facts.methods_of("TbfParticlesContainer") if m["kind"] == "CXXConstructor" and len(m["params"]) == 3 and tbf.body(m) is not None and "GroupInfoClass" in m["params"][0]["t"]]
     if len(pt) != 1:
         raise AnalysisBroken("TbfParticlesContainer(group info, positions, converter) constructor not found")
     fn = pt[0]
